@@ -575,8 +575,56 @@ def refute(tier, seed, emit):
                     emit.violation('yaml-roundtrip:%s' % route, w, msg)
         if emit.full:
             return
-    # too deep
+    # seeded random edit sequences over the configuration's own key paths (every depth), values of every kind
     import emd
+    r = rng(seed, 18)
+    nrand = 40 if tier == 'quick' else 10000
+    emit.scope('%d seeded random edit sequences (1..6 edits over the key paths of the variant\'s own default configuration at depth 1..3; values: int, float, bool, None, str, tuple, list, numpy array) x {key-path vs nested indexing with a deletion, YAML file route, YAML text route}' % nrand)
+
+    def paths(d, pre=''):
+        out = []
+        for k, val in d.items():
+            if isinstance(val, dict):
+                out += paths(val, pre + k + '/')
+            else:
+                out.append(pre + k)
+        return out
+
+    def value(rr):
+        kind = rr.randint(0, 8)
+        if kind == 0:
+            return int(rr.randint(-3, 50))
+        if kind == 1:
+            return float(np.round(rr.randn() * 10 ** rr.randint(-6, 3), 9))
+        if kind == 2:
+            return bool(rr.randint(0, 2))
+        if kind == 3:
+            return None
+        if kind == 4:
+            return ['splrep', 'rilling', 'odd', 'even', 'x y', ''][rr.randint(0, 6)]
+        if kind == 5:
+            return [float(v) for v in np.round(rr.rand(3), 6)]
+        if kind == 6:
+            return {'__array__': [float(v) for v in np.round(rr.rand(int(rr.randint(1, 4))), 6)]}
+        return {'__tuple__': [float(v) for v in np.round(rr.rand(3), 6)]} if False else [int(v) for v in rr.randint(0, 9, size=2)]
+    for q in range(nrand):
+        v = variants[q % len(variants)]
+        keys = paths(dict(emd.sift.get_config(v)))
+        ed = [[keys[int(r.randint(0, len(keys)))], value(r)] for _ in range(int(r.randint(1, 7)))]
+        emit.case(('rand', q, 'keypath'), contract='SiftConfig')
+        w = {'kind': 'keypath', 'variant': v, 'edits': ed, 'delete': ed[-1][0]}
+        ok, msg = replay(w)
+        if ok:
+            emit.violation('key-path-equals-nested-indexing', w, msg)
+        route = ('file', 'text')[q % 2]
+        emit.case(('rand', q, route), contract='SiftConfig.yaml')
+        w = {'kind': 'yaml', 'variant': v, 'route': route, 'edits': ed, 'behaviour': False}
+        ok, msg = replay(w)
+        if ok:
+            emit.violation('yaml-roundtrip:%s' % route, w, msg)
+        if emit.full:
+            return
+    # too deep
     cfg = emd.sift.get_config('sift')
     emit.case(('deep',), contract='SiftConfig')
     try:
